@@ -29,14 +29,14 @@ def main():
     name, wt, prop = sys.argv[1:4]
     checks = sys.argv[4:] or [prop]
     meta = {'name': name, 'property': prop, 'ran': []}
-    rc, out = sh('git diff --stat; git diff > patch.diff; git status --short | head', wt)
+    rc, out = sh('git diff --stat; git diff -- mistletoe > patch.diff; git status --short | head', wt)
     rc, out = sh('/venv/bin/python -m pytest -q -p no:cacheprovider 2>&1 | tail -2', wt)
     meta['tests_with_change'] = out.strip().splitlines()[-1] if out.strip() else ''
     ok_tests = ' passed' in out and 'failed' not in out
     rc_with, out_with = sh('/venv/bin/python demo.py', wt, timeout=600)
-    sh('git stash -q', wt)
+    sh('git apply -R patch.diff', wt)
     rc_without, out_without = sh('/venv/bin/python demo.py', wt, timeout=600)
-    sh('git stash pop -q', wt)
+    sh('git apply patch.diff', wt)
     meta['demo_with_change'] = {'exit': rc_with, 'tail': out_with[-600:]}
     meta['demo_without_change'] = {'exit': rc_without, 'tail': out_without[-300:]}
     confirmed = ok_tests and rc_with != 0 and rc_without == 0
